@@ -109,6 +109,24 @@ func runMutant(repo string, pc *PropConfig, m Mutant) (bool, string) {
 		}
 	}
 	for _, sc := range pc.Structural {
+		if strings.HasPrefix(sc, "recursion-guarded|") {
+			cycles, nf, serr := e.recursionGuarded(sc)
+			head := strings.Join(strings.Split(sc, "|")[:2], "|")
+			var ns []string
+			if serr != "" || nf == 0 {
+				ns = append(ns, "structural:"+sc+"#scan")
+			}
+			for _, c := range cycles {
+				ns = append(ns, "structural:"+head+"#cycle:"+c)
+			}
+			for _, n := range ns {
+				names = append(names, n)
+				if strings.Contains(n, m.Expect) {
+					return true, "structural " + clip(n, 160)
+				}
+			}
+			continue
+		}
 		if ok, _ := e.structural(sc); !ok {
 			names = append(names, "structural:"+sc)
 			if strings.Contains("structural:"+sc, m.Expect) {
